@@ -38,7 +38,9 @@ def gen_cases(tier, seed):
     def rich(d):  # enough choice at the start symbol for set / address order to matter
         return sum(1 for p in d["prods"] if p.get("parent") == d["start"]) >= 3 and any(p["fields"] for p in d["prods"] if p.get("parent") == d["start"])
 
-    descs = [d for d in grammars.family(seed, n * 6, "general") if rich(d)][:n]
+    a = [d for d in grammars.family(seed, n * 6, "general") if rich(d)]
+    b = [d for d in grammars.family(seed + 5, n * 6, "weighted", with_fixed=False) if rich(d)]  # weighted grammars are rebuilt by update_weights
+    descs = [x for pair in zip(a, b) for x in pair][:n]
     for i, desc in enumerate(descs):
         envs = []
         for e in range(PLAN[tier]["envs"]):
